@@ -593,6 +593,25 @@ pub fn run_status(_args: &Args, mut out: Out) {
         HttpError::UnsupportedTransferEncoding,
         HttpError::UnwritableResponse,
     ];
+    // the three variants that carry an I/O error: every ErrorKind x payload texts (the mapping must not depend on either)
+    use std::io::ErrorKind as K;
+    let kinds = [
+        K::NotFound, K::PermissionDenied, K::ConnectionRefused, K::ConnectionReset, K::HostUnreachable, K::NetworkUnreachable,
+        K::ConnectionAborted, K::NotConnected, K::AddrInUse, K::AddrNotAvailable, K::NetworkDown, K::BrokenPipe, K::AlreadyExists,
+        K::WouldBlock, K::NotADirectory, K::IsADirectory, K::DirectoryNotEmpty, K::ReadOnlyFilesystem, K::StaleNetworkFileHandle,
+        K::InvalidInput, K::InvalidData, K::TimedOut, K::WriteZero, K::StorageFull, K::NotSeekable, K::QuotaExceeded, K::FileTooLarge,
+        K::ResourceBusy, K::ExecutableFileBusy, K::Deadlock, K::CrossesDevices, K::TooManyLinks, K::ArgumentListTooLong,
+        K::Interrupted, K::Unsupported, K::UnexpectedEof, K::OutOfMemory, K::Other,
+    ];
+    let mut errs = errs;
+    for k in kinds {
+        for payload in [secret, "", "x"] {
+            errs.push(HttpError::error_reading_file(std::io::Error::new(k, payload)));
+            errs.push(HttpError::error_reading_response_body(std::io::Error::new(k, payload)));
+            errs.push(HttpError::error_saving_file(std::io::Error::new(k, payload)));
+            errs.push(HttpError::ErrorReadingFile(k, payload.to_string()));
+        }
+    }
     for e in errs {
         sid += 1;
         let variant = variant_name(&e);
